@@ -158,7 +158,7 @@ func runC12(res *lib.Result, tier string, seed int64, args []string) error {
 				continue
 			}
 			if excused[o.name] {
-				res.HitKnown("C12-K1", "definition (position-based resolver) and references/highlight (traversal-time binding) disagree for names that have an occurrence in a C05-K1/K2 or C06-K2 situation: e.g. on the right-hand x of 'local x = x + 1' the position is not among its own references", caseText+"\n"+strings.Join(problems, "\n"))
+				res.HitKnown("C12-K1", "definition (position-based resolver) and references/highlight (traversal-time binding) disagree for names that have an occurrence in a C05-K1/K2 situation: e.g. on the right-hand x of 'local x = x + 1' the position is not among its own references", caseText+"\n"+strings.Join(problems, "\n"))
 				res.Dist("hit.C12-K1")
 				continue
 			}
